@@ -67,9 +67,24 @@ def build(cfg, log):
     def nm(cid):
         return {"name": "c%d" % cid} if cfg.get("named", True) else {}
 
+    loaders = {}
+    late = bool(cfg.get("late_weights"))
+
     def mk(c, cid, train):
         xs = torch.tensor([[float(x)] for x in c["xs"]], dtype=torch.float64) if c["xs"] else None
         w = c["wn"] / c["wd"]
+        if late and train:          # built with another weight; the user sets the real one after the Solver exists
+            w = w + 0.25
+        if c["kind"] == "data":     # DataCondition on a PointsDataLoader (mini-batches, not shuffled); share = 1: the loader OBJECT of the first one
+            p, q = c.get("p", 0), c.get("q", 0)
+            if c.get("share") and loaders:
+                dl = next(iter(loaders.values()))
+            else:
+                ys = torch.tensor([[float(p * x + q)] for x in c["xs"]], dtype=torch.float64)
+                dl = tp.utils.PointsDataLoader((Points(xs, X), Points(ys, Uo)), batch_size=c["bs"], shuffle=False)
+                loaders[cid] = dl
+            cond = tp.conditions.DataCondition(model, dl, norm=2, weight=w, **nm(cid))
+            return Rec(cond, cid, log)
         smp = tp.samplers.DataSampler(Points(xs, X)).make_static() if xs is not None else None
         p, q = c.get("p", 0), c.get("q", 0)
         if c["kind"] == "fit":
@@ -98,6 +113,10 @@ def build(cfg, log):
         # (no momentum: the default optimizer_args of OptimizerSetting, as most users write it)
         setting = tp.OptimizerSetting(torch.optim.SGD, lr=cfg["lrn"] / cfg["lrd"], **({"optimizer_args": opt_args} if opt_args else {}))
     solver = tp.solver.Solver(train, val, optimizer_setting=setting)
+    if late:                        # re-balancing after the Solver was constructed: the weights in force are the ones at training time
+        for r_, c in zip(train, cfg["train"]):
+            r_.weight = c["wn"] / c["wd"]
+            r_.cond.weight = c["wn"] / c["wd"]
     return solver, objs
 
 
@@ -154,6 +173,8 @@ def fit(cfg, steps, workdir, callbacks_extra=(), ckpt_path=None, log=None):
         trainer.fit(solver, ckpt_path=ckpt_path)
         if cfg.get("refit"):          # the same Solver object fitted again by a fresh Trainer
             log.append({"e": "refit"})
+            if cfg.get("eval_between"):       # the user inspects the result in eval mode between the two fits
+                solver.eval()
             trainer = pl.Trainer(max_steps=steps, logger=False, enable_checkpointing=False, enable_progress_bar=False,
                                  enable_model_summary=False, num_sanity_val_steps=0, accelerator="cpu", devices=1,
                                  default_root_dir=workdir, callbacks=[Logger(objs, log)], **kw)
@@ -162,7 +183,7 @@ def fit(cfg, steps, workdir, callbacks_extra=(), ckpt_path=None, log=None):
 
 
 def run_one(s):
-    cfg = dict(s["cfg"], named=(s["tid"] % 2 == 1))
+    cfg = dict(s["cfg"], named=(s["tid"] % 2 == 1), late_weights=(s["tid"] % 3 == 0), eval_between=(s["tid"] % 4 != 3))
     wd = tempfile.mkdtemp(prefix="c07-", dir=os.environ.get("VERIF_TMP", None))
     try:
         r = watched(lambda: fit(cfg, cfg["N"], wd), 90)
